@@ -526,8 +526,8 @@ def run(rep, program: Program, tier: str) -> None:
         "and value-flow of generator state across the pickle boundary of multi-process sampling."
     )
     rep.assumptions = ["races inside NumPy / the OS are not this code", "bit_generator.state is the complete state of a NumPy bit generator (NumPy contract)"]
-    rule_r1(rep, program)
-    rule_r2(rep, program)
-    rule_r3(rep, program)
-    rule_r4(rep, program)
-    rule_r5(rep, program)
+    rep.isolate(rule_r1, rep, program)
+    rep.isolate(rule_r2, rep, program)
+    rep.isolate(rule_r3, rep, program)
+    rep.isolate(rule_r4, rep, program)
+    rep.isolate(rule_r5, rep, program)
